@@ -89,7 +89,7 @@ package udf
 // reassembly: Begin opens an empty batch, End closes it.
 //@ func (*Server).handleResponse
 //@   props C19 C05
-//@   requires decodedOK(response)
+//@   requires decodedOK(response) && s.diag != nil
 //@   ensures typeis(response.Message, *agent.Response_Begin) && result == nil ==>
 //@       (s.begin == as(response.Message, *agent.Response_Begin).Begin && s.points != nil && len(s.points) == 0) || (s.begin == old(s.begin) && s.points == old(s.points))
 //@   ensures typeis(response.Message, *agent.Response_End) && result == nil ==> (s.begin == nil && s.points == nil) || (s.begin == old(s.begin) && s.points == old(s.points))
